@@ -32,7 +32,11 @@ where
     let mut next = Vec::new();
     loop {
         if todo[usize::from(c)].is_empty() {
-            c = c.checked_add(1).unwrap();
+            // Running out of representable costs is the same as running out of buckets.
+            let Some(next_c) = c.checked_add(1) else {
+                return Vec::new();
+            };
+            c = next_c;
             if usize::from(c) == todo.len() {
                 return Vec::new();
             }
